@@ -278,7 +278,7 @@ PROBE_PLAIN = ('local b = require("b")\nlocal a = require("a")\nlocal s = \'sing
                'do\n\tlocal nested = { 1,\n2 }\nend\n')
 PROBES = {
     "plain": PROBE_PLAIN,
-    "spaces": PROBE_PLAIN, "spaces_tabwidth": PROBE_PLAIN,
+    "spaces": PROBE_PLAIN, "spaces_tabwidth": PROBE_PLAIN, "spaces_othertab": PROBE_PLAIN,
     "lua52": "goto done\ndo   local x = 1 end\n::done::\n",
     "lua53": "local   x = 7 // 2 | 1\n",
     "lua54": "local   x <const> = 1\n",
@@ -345,6 +345,8 @@ def src_carriers(tier, seed):
                 extra = "indent_style = space\n" if e["probe"].startswith("spaces") else ""
                 if e["probe"] == "spaces_tabwidth":
                     extra += "indent_size = tab\n"
+                elif e["probe"] == "spaces_othertab":
+                    extra += "tab_width = 8\n"
                 tree.append({"path": ".editorconfig", "text": "root = true\n\n[*.lua]\n%s%s = %s\n" % (extra, e["eckey"], val), "class": "raw"})
             for nm in names:
                 tree.append({"path": nm, "text": probe, "tag": "probe", "class": "raw", "_key": key})
@@ -484,7 +486,7 @@ def _extract_ops(events):
 def src_exitcode(tier, seed):
     """C19: every interleaving of the traced accesses to the exit status, generated by TLC from the operation
     lists of a free run of the current binary, forced on the real binary."""
-    binary = os.path.join(vlib.BUILD, "target-cli", "debug", "stylua")
+    binary = os.path.join(vlib.TARGET_CLI, "debug", "stylua")
     priv = clirun.have_setpriv()
     scenarios, stats = [], {"module": "MC_ExitCode", "states": 0, "distinct": 0, "wall": 0, "design_counterexamples": 0, "instances": []}
     for name, files in EXIT_SCENARIOS:
@@ -629,6 +631,21 @@ def src_threads(tier, seed):
                                           "meta": {"files": [{"path": f, "cls": c, "loc": "arg", "i": k + 1} for k, (f, c) in enumerate(order)],
                                                    "mode": mode, "fmt": "standard", "verify": False, "threads": t, "sortreq": False, "priv": priv,
                                                    "sig": "threads-configs"}})
+    # third family: pairs of files that share a directory and a stem (mod1.lua / mod1.luau): whatever scratch names or
+    # per-file resources a worker derives from a path must not collide between two files handled at the same time
+    pairs = [("same/mod%d.%s" % (k, ext), "unformatted") for k in range(1, 7) for ext in ("lua", "luau")]
+    ptexts = {p_: "local   m%d   =   { %d,%d }\nlocal function f%d( a,b )\nreturn a+b\nend\n" % (i, i, i + 1, i) for i, (p_, _) in enumerate(pairs)}
+    plib = _expected_formats([(p_, ptexts[p_].encode(), {"syntax": "All"}) for p_, _ in pairs])
+    if all(plib.get(p_) is not None for p_, _ in pairs):
+        for t in range(1, 17):
+            for rep in range(reps):
+                for oi, order in enumerate((pairs, pairs[::-1])):
+                    tree = [{"path": p_, "class": c, "text": ptexts[p_], "expect": {"fmt": plib[p_]}} for p_, c in pairs]
+                    scenarios.append({"id": "thp:%d:%d:%d" % (t, rep, oi), "tree": tree,
+                                      "argv": ["--num-threads", str(t)] + [f for f, _ in order],
+                                      "meta": {"files": [{"path": f, "cls": c, "loc": "arg", "i": k + 1} for k, (f, c) in enumerate(order)],
+                                               "mode": "write", "fmt": "standard", "verify": False, "threads": t, "sortreq": False, "priv": priv,
+                                               "sig": "threads-same-stem"}})
     return scenarios, {"module": "(thread-count sweep)", "states": 0, "distinct": 0, "cases": len(scenarios)}
 
 
